@@ -50,6 +50,7 @@ func runC14(c *core.Ctx) {
 	c14R5(c, "C14.R5")
 	c14R6(c)
 	c14R7(c)
+	c20R5as(c, "C14.R8")
 }
 
 // c14R7: the ban lookup reads the replicated state under the ban's own key and type.
